@@ -211,6 +211,13 @@ def _pure(e, depth=0):
         return _pure(e.value, depth + 1)
     if isinstance(e, ast.Subscript):
         return _pure(e.value, depth + 1) and isinstance(e.slice, ast.Constant)
+    if isinstance(e, ast.Compare):
+        return _pure(e.left, depth + 1) and all(
+            _pure(c, depth + 1) for c in e.comparators)
+    if isinstance(e, ast.BoolOp):
+        return all(_pure(v, depth + 1) for v in e.values)
+    if isinstance(e, ast.UnaryOp) and isinstance(e.op, ast.Not):
+        return _pure(e.operand, depth + 1)
     if isinstance(e, ast.Call):
         if isinstance(e.func, ast.Attribute) and not e.args and \
                 not e.keywords:
